@@ -85,7 +85,8 @@ def check_match_form(ctx, c, name, rb, n, dec):
 
 def check_helper(ctx, c, name, ob, rb):
     n = ob.argc  # log_as is the last parameter
-    rb = inline.expand(c, rb, depth=2, pred=lambda cb: cb.d.get("vis") != "pub" and cb.name not in ("only_item", "optional_item", "parse_auth_inner"))
+    # (private helpers, and public siblings of the same module the helper merely forwards to — `path_param` -> `raw_path_param`)
+    rb = inline.expand(c, rb, depth=2, pred=lambda cb: (cb.d.get("vis") != "pub" or (cb.id.startswith(SRV) and cb.kind == "fn")) and cb.name not in ("only_item", "optional_item", "parse_auth_inner") + tuple(HELPERS))
     me = [(bb, t) for bb, t in rb.calls() if t["call"]["name"] == "map_err" and "Result" in t["call"]["def"]]
     dec = [(bb, t) for bb, t in rb.calls() if t["call"]["name"] in ("decode", "deserialize") and (t["call"].get("trait") or "").startswith("conjure_http::server::")]
     if dec and not me and check_match_form(ctx, c, name, rb, n, dec):
@@ -167,8 +168,9 @@ def check_tagging(ctx, c, name, rb, n, me_t, di):
 
 def c06_returns(body, call_bb):
     vt = dt.value_tracer(body)
+    plain = Tracer(body)        # copies only (the value tracer looks through map_err, whose own result is meant here)
     for bb, j, s in body.stmts():
-        if place_local(s["d"]) == 0 and not place_proj(s["d"]) and "use" in s["r"] and dt.derives_from_call(body, s["r"]["use"], call_bb, vt):
+        if place_local(s["d"]) == 0 and not place_proj(s["d"]) and "use" in s["r"] and (dt.derives_from_call(body, s["r"]["use"], call_bb, vt) or ("call", call_bb) in plain.sources(s["r"]["use"])):
             return True
     return False
 
@@ -200,12 +202,23 @@ def check_cardinality(ctx, c):
                 if not first and more:
                     continue
 
-                def oracle(f, argv, first=first, more=more):
+                pulled = [0]
+                total = (1 + more) if first else 0
+
+                def oracle(f, argv, first=first, more=more, pulled=pulled, total=total):
+                    # the sequence has `total` items: item, item2, item3; `next` hands them out one by one (a single scan that
+                    # counts while keeping the first is the same function as next + count)
                     nm = f.get("name")
                     if nm == "next" and "Iterator" in f.get("def", ""):
-                        return minterp.adt(OPTP, 1, [("sym", "item")]) if first else minterp.adt(OPTP, 0, [])
+                        k = pulled[0]
+                        if k < total:
+                            pulled[0] += 1
+                            return minterp.adt(OPTP, 1, [("sym", "item" if k == 0 else f"item{k + 1}")])
+                        return minterp.adt(OPTP, 0, [])
                     if nm == "count" and "Iterator" in f.get("def", ""):
-                        return more
+                        k = pulled[0]
+                        pulled[0] = total
+                        return total - k
                     if nm in ("into_iter", "by_ref", "fuse", "peekable") and argv:
                         return argv[0]
                     return minterp.NO_VALUE
@@ -344,6 +357,26 @@ def run(ctx):
     n = c06.check_error_classes(ctx, c, scope, "R19.2", expected=INVALID_ARG, label="parameter-decoding")
     ctx.floor("R19.2", "error construction sites in parameter decoders", n, 6)
     auth = [b for b in c.bodies if b.id.startswith(SRV) and b.name in ("parse_auth_inner", "parse_header_auth", "parse_cookie_auth")]
+    # ... and whatever they reach inside the module: private extraction helpers, closures, conversions of a private failure enum
+    seen_ = {b.id for b in auth}
+    work_ = list(auth)
+    while work_:
+        x_ = work_.pop()
+        for y_ in [x_] + c.closures_of(x_):
+            for _, t_ in y_.calls():
+                for f_ in [t_["call"]] + [(a_.get("c") or {}).get("fn") for a_ in t_["args"]]:
+                    if not f_:
+                        continue
+                    if f_.get("trait") and not (f_.get("resolved") or {}).get("local"):
+                        late_ = c.resolve_trait_call(f_)
+                        if late_:
+                            f_ = dict(f_, resolved=late_)
+                    rid_ = (f_.get("resolved") or {}).get("id") if (f_.get("resolved") or {}).get("local") else (f_.get("id") if f_.get("local") else None)
+                    cb_ = c.body(rid_) if rid_ else None
+                    if cb_ is not None and cb_.id not in seen_ and cb_.id.startswith(SRV) and (cb_.d.get("vis") != "pub" or cb_.trait) and cb_.kind in ("fn", "assoc_fn"):
+                        seen_.add(cb_.id)
+                        auth.append(cb_)
+                        work_.append(cb_)
     n2 = c06.check_error_classes(ctx, c, auth, "R19.2", expected=PERM_DENIED, label="auth-parsing")
     ctx.floor("R19.2", "auth failure sites", n2, 1)
     check_cardinality(ctx, c)
@@ -459,8 +492,9 @@ def run(ctx):
 
     found = 0
     for b in sv:
-        consts = {str((dt.resolve_const(b, a) or {}).get("str")) for _, t in b.calls() for a in t["args"]}
-        if not any("log_as" in x for x in consts):
+        # (the template naming `log_as` may sit in a closure of the function: `(a != b).then(|| quote!(.. log_as ..))`)
+        consts = {str((dt.resolve_const(y_, a) or {}).get("str")) for y_ in [b] + cg.closures_of(b) for _, t in y_.calls() for a in t["args"]}
+        if b.kind == "closure" or not any("log_as" in x for x in consts):
             continue
         for bb, t in b.calls():
             if t["call"]["def"] not in ("core::cmp::PartialEq::eq", "core::cmp::PartialEq::ne"):
@@ -487,6 +521,10 @@ def check_templates(ctx, tm):
                 if cname.startswith("#"):
                     b_ = fn["lets"].get(cname[1:], "")
                     cname = next((h for h in HELPERS if h in b_), cname)
+                    # one template for all the helpers: `conjure_http::private::#function::<..>(..)` with the helper's name a
+                    # parameter of the template function
+                    if cname.startswith("#") and not b_ and ("conjure_http::private::" + cname) in q["text"].replace(" ", ""):
+                        cname = HELPERS[0]
                 if cname in HELPERS:
                     slots += 1
                     last = call["args"][-1] if call["args"] else ""
@@ -509,4 +547,4 @@ def check_templates(ctx, tm):
                     ctx.check(good, "R19.3", f"{fn['file'].split('/repo/')[-1]}:{q['line']}", f"{fn['name']}|{call['name']}|log-name",
                               f"macro template in {fn['name']}: the log-name argument of {call['name']} is `{last}` bound to `{binding}`; it must be the argument's declared log name (arg.log_as())",
                               instance=f"{fn['name']}: {call['name']}(.., {last}) with {var} = {binding}")
-    ctx.floor("R19.3", "helper-call templates in the endpoint macro", slots, 2)
+    ctx.floor("R19.3", "helper-call templates in the endpoint macro", slots, 1)
